@@ -357,6 +357,15 @@ func init() {
 		}
 		return ret(tAnd(cs...))
 	}
+	stubs[p+"verifCommitCount"] = func(e *Exec, th *Thread, c *CallCtx, a []Val) StubRes {
+		return ret(mkInt(int64(dbOf(a[0]).commits)))
+	}
+	stubs[p+"verifFaults"] = func(e *Exec, th *Thread, c *CallCtx, a []Val) StubRes {
+		db := dbOf(a[0])
+		db.faults = true
+		e.world["faultBudget"] = e.concreteInt(a[1], "fault budget")
+		return ret(nil)
+	}
 	stubs[p+"verifTxnOpen"] = func(e *Exec, th *Thread, c *CallCtx, a []Val) StubRes {
 		db := dbOf(a[0])
 		return ret(mkBool(db.txn != nil && !db.txn.done))
